@@ -101,6 +101,10 @@ SYNONYMS = [
     ("Deref", "struct S { #[deref] #[deref_mut] a: u8, b: u8 }", "struct S { #[deref_mut] #[deref] a: u8, b: u8 }"),
     ("TryFrom", "#[try_from(repr)] #[repr(u8)] enum E { A, B }", "#[repr(u8)] #[try_from(repr)] enum E { A, B }"),
     ("Into", "#[into(owned(u16), ref(u8))] struct S(u8);", "#[into(ref(u8), owned(u16))] struct S(u8);"),
+    ("TryFrom", "#[try_from(repr)] #[repr(u8)] #[repr(align(8))] enum E { A, B }", "#[try_from(repr)] #[repr(align(8))] #[repr(u8)] enum E { A, B }"),
+    ("TryFrom", "#[try_from(repr)] #[repr(align(8), u8)] enum E { A, B }", "#[try_from(repr)] #[repr(align(8))] #[repr(u8)] enum E { A, B }"),
+    ("TryFrom", "#[try_from(repr)] #[repr(u16, align(2))] enum E { A = 300, B }", "#[repr(align(2))] #[try_from(repr)] #[repr(u16)] enum E { A = 300, B }"),
+    ("TryFrom", "#[try_from(repr)] #[repr(i8)] #[repr(align(1))] #[repr(align(2))] enum E { A = -1, B }", "#[try_from(repr)] #[repr(align(1))] #[repr(align(2))] #[repr(i8)] enum E { A = -1, B }"),
     ("Display", '#[display("{a}")] #[display(rename_all = "snake_case")] enum E { A { a: u8 }, BeeCee }', '#[display(rename_all = "snake_case")] #[display("{a}")] enum E { A { a: u8 }, BeeCee }'),
 ]
 
